@@ -1,23 +1,59 @@
 import Nv.Props.C09
 import Nv.Gen.C09
-/-! C09 — obligations on the definitions regenerated from /repo's current source. -/
+import Nv.Gen.C08
+/-! C09 — obligations on the definitions regenerated from /repo's current source (`c09 extract` regenerates both
+`Nv/Gen/C09.lean` and `Nv/Gen/C08.lean`, because the C09 theorems are built on the C08 bitmap model). -/
 namespace Nv.C09
 open Nv.Gen.C09
 
-/-- fails while `BigU32.IterAsI64/RIterAsI64` multiply in `uint32` (F07) or `U32BitTip.getNAsU32` dispatches
-    the wrong way round (F08): the expected outcome before the repair -/
+/-- fails when `BigU32.IterAsI64/RIterAsI64` multiply in `uint32` (F07), when `U32BitTip.getNAsU32` dispatches the wrong
+    way round (F08), or when any behaviour-selecting fact is `.unknown` / a constant has another value -/
 theorem tie_cfg_proved : Proved cfg := by decide
 theorem tie_facts : facts = Facts.expected := by decide
 
+/-! the C08 facts and kernels the C09 theorems depend on (iterator shapes behind `iter1024_spec`, `SetI16` index
+arithmetic and `Bit64.Set` behind `setI16_spec`, the `u64Tab` initialisation), re-checked by every C09 run -/
+theorem tie_c08_cfg : Nv.Gen.C08.cfg = cfg.base := by decide
+theorem tie_c08_facts : Nv.Gen.C08.facts = Nv.C08.Facts.expected := by decide
+theorem tie_c08_set64 (i : BitVec 8) (b : BitVec 64) (j : Nat) :
+    (Nv.Gen.C08.bit64_set i b).getLsbD j = (b.getLsbD j || (decide (i.toNat ≤ 63) && decide (i.toNat = j))) := by
+  first
+  | exact Nv.C08.set64_spec b i j
+  | (have h63 : (63#8 : BitVec 8).toNat = 63 := rfl
+     have h64 : (64#8 : BitVec 8).toNat = 64 := rfl
+     simp only [Nv.Gen.C08.bit64_set, BitVec.ule_eq_decide, BitVec.ult_eq_decide, h63, h64]
+     by_cases h : i.toNat ≤ 63
+     · have h' : i.toNat < 64 := by omega
+       simp only [h, h', decide_true, if_true, Bool.true_and]
+       exact Nv.C08.getLsbD_setbit b i.toNat j h'
+     · have h' : ¬ i.toNat < 64 := by omega
+       simp [h, h'])
+theorem tie_c08_setI16_sel (i : BitVec 16) :
+    (0 ≤ i.toInt ∧ i.toInt < 1024 →
+      (Nv.Gen.C08.setI16_sel i).1 = true ∧ (Nv.Gen.C08.setI16_sel i).2.1.toNat = i.toInt.toNat / 64 ∧
+      (Nv.Gen.C08.setI16_sel i).2.2.toNat = i.toInt.toNat % 64) ∧
+    (¬(0 ≤ i.toInt ∧ i.toInt < 1024) → (Nv.Gen.C08.setI16_sel i).1 = false ∨ 63 < (Nv.Gen.C08.setI16_sel i).2.2.toNat) :=
+  Nv.C08.selI16_spec i
+
 /-! the regenerated kernels are the functions the model is about -/
+theorem twoPow10 : BitVec.twoPow 64 10 = 1024#64 := by decide
+
 theorem tie_big_offset (s : BitVec 32) : bigU32_iterOffset s = bigOffset cfg false s := by
-  first | rfl | simp [bigU32_iterOffset, bigOffset, offsetOf, cfg, BitVec.mul_comm]
+  first
+  | rfl
+  | (simp [bigU32_iterOffset, bigOffset, offsetOf, cfg, BitVec.mul_comm]; done)
+  | (simp [bigU32_iterOffset, bigOffset, offsetOf, cfg]
+     rw [BitVec.shiftLeft_eq_mul_twoPow, twoPow10])
 theorem tie_big_roffset (s : BitVec 32) : bigU32_rIterOffset s = bigOffset cfg true s := by
-  first | rfl | simp [bigU32_rIterOffset, bigOffset, offsetOf, cfg, BitVec.mul_comm]
+  first
+  | rfl
+  | (simp [bigU32_rIterOffset, bigOffset, offsetOf, cfg, BitVec.mul_comm]; done)
+  | (simp [bigU32_rIterOffset, bigOffset, offsetOf, cfg]
+     rw [BitVec.shiftLeft_eq_mul_twoPow, twoPow10])
 theorem tie_tip_offset (s : BitVec 32) : u32BitTip_iterOffset s = s * BitVec.ofNat 32 cfg.c1k := by
-  first | rfl | simp [u32BitTip_iterOffset, cfg, BitVec.mul_comm]
+  first | rfl | (simp [u32BitTip_iterOffset, cfg, BitVec.mul_comm]; done)
 theorem tie_tip_roffset (s : BitVec 32) : u32BitTip_rIterOffset s = s * BitVec.ofNat 32 cfg.c1k := by
-  first | rfl | simp [u32BitTip_rIterOffset, cfg, BitVec.mul_comm]
+  first | rfl | (simp [u32BitTip_rIterOffset, cfg, BitVec.mul_comm]; done)
 theorem tie_selI64_new (v : BitVec 64) : newBigU32FromI64_sel v = selI64 v := rfl
 theorem tie_selI64_set (v : BitVec 64) : bigU32SetI64_sel v = selI64 v := rfl
 theorem tie_selU32_new (u : BitVec 32) : newU32BitTipFromU32_sel u = selU32 u := rfl
@@ -33,15 +69,18 @@ theorem tie_newBigU32FromI64_sel_spec (v : BitVec 64) :
       (newBigU32FromI64_sel v).2.2.toInt = ((v.toInt.toNat % 1024 : Nat) : Int)) ∧
     (¬(0 ≤ v.toInt ∧ v.toInt < 4398046510080) → (newBigU32FromI64_sel v).1 = false) := selI64_spec v
 
-/-- regenerated block base of `BigU32.IterAsI64`: `Start·1024` without wrap-around (false while the product is `uint32`) -/
+/-- regenerated block base of `BigU32.IterAsI64`: `Start·1024` without wrap-around, proved on the kernel itself for a
+    product in either order or a shift by 10 (false for a `uint32` product) -/
 theorem tie_big_offset_exact (s : BitVec 32) : (bigU32_iterOffset s).toNat = s.toNat * 1024 := by
   have := s.isLt
-  simp only [bigU32_iterOffset, BitVec.toNat_mul, BitVec.toNat_setWidth, BitVec.toNat_ofNat]
-  omega
+  first
+  | (simp only [bigU32_iterOffset, BitVec.toNat_mul, BitVec.toNat_setWidth, BitVec.toNat_ofNat]; omega)
+  | (simp [bigU32_iterOffset, BitVec.toNat_shiftLeft, Nat.shiftLeft_eq]; omega)
 
 theorem tie_big_roffset_exact (s : BitVec 32) : (bigU32_rIterOffset s).toNat = s.toNat * 1024 := by
   have := s.isLt
-  simp only [bigU32_rIterOffset, BitVec.toNat_mul, BitVec.toNat_setWidth, BitVec.toNat_ofNat]
-  omega
+  first
+  | (simp only [bigU32_rIterOffset, BitVec.toNat_mul, BitVec.toNat_setWidth, BitVec.toNat_ofNat]; omega)
+  | (simp [bigU32_rIterOffset, BitVec.toNat_shiftLeft, Nat.shiftLeft_eq]; omega)
 
 end Nv.C09
